@@ -61,6 +61,8 @@ class Fn:
         self.param_roles = {}  # helper methods: parameter -> roles of the argument at the (single) call site
         self.param_consts = {}  # helper methods: parameter -> literal passed
         self.cache_params = set()  # helper methods: parameters that receive self._con_cache
+        self.param_exprs = {}   # builder helpers: parameter -> (caller Fn, argument expr, caller node)
+        self.scope_map = {}     # builder helpers: caller scope 'elem:j' -> scope in terms of the helper's parameter
 
     def at(self, node):
         st = node if isinstance(node, ast.stmt) else astx.stmt_of(node)
@@ -240,6 +242,9 @@ def roles(F, e, at, st=None, depth=0):
             return {UNKNOWN}
         if len(ds) == 1 and ds[0][0] == 'param' and e.id in F.param_roles:
             return set(F.param_roles[e.id])
+        if len(ds) == 1 and ds[0][0] == 'param' and e.id in F.param_exprs:
+            cF, ce, cat = F.param_exprs[e.id]
+            return {(k, F.scope_map.get(sc, sc)) for k, sc in roles(cF, ce, cat, st, depth + 1)}
         # `v = <whole>` followed by `if isinstance(v, np.ndarray): v = v[i]`
         selfsub = [x for x in ds if x[0] == 'expr' and isinstance(x[1], ast.Subscript) and
                    isinstance(x[1].value, ast.Name) and x[1].value.id == e.id]
@@ -267,6 +272,9 @@ def roles(F, e, at, st=None, depth=0):
                     continue
             if k == 'expr':
                 out |= roles(F, p, d, st, depth + 1)
+            elif k == 'slot' and _tuple_elts(F, p[2], p[1], d, st) is not None:
+                for el in _tuple_elts(F, p[2], p[1], d, st):
+                    out |= roles(F, el[p[0]], d, st, depth + 1)
             elif k == 'slot':
                 i, n, call = p
                 if n == 3 and isinstance(call, ast.Call) and astx.callee_attr(call) == 'get_bounds_scaling' \
@@ -308,6 +316,20 @@ def _is_bounds_call(call):
     return isinstance(call, ast.Call) and astx.callee_attr(call) == 'get_bounds_scaling' and \
         astx.path(astx.receiver(call)) == 'self._autoscaler' and bool(call.args) and \
         astx.const_str(call.args[0]) == 'constraint'
+
+
+def _tuple_elts(F, v, n, at, st):
+    """Candidate element lists of a tuple-valued expression of length n: `(a, b)` or `(a, b) if c else (d, e)`."""
+    if isinstance(v, (ast.Tuple, ast.List)) and len(v.elts) == n:
+        return [v.elts]
+    if isinstance(v, ast.IfExp):
+        c = ev3(v.test, lambda a: atom(F, a, at, st)) if st is not None else None
+        a = _tuple_elts(F, v.body, n, at, st) if c is not False else []
+        b = _tuple_elts(F, v.orelse, n, at, st) if c is not True else []
+        if a is None or b is None:
+            return None
+        return a + b
+    return None
 
 
 def one_role(F, e, at, st=None):
@@ -651,6 +673,61 @@ class Run:
             return {k.arg: k.value for k in v.keywords}
         return None
 
+    def builder(self, call):
+        """(helper Func, constraint constructor call inside it, return node) when `call` is `self.m(...)` and m
+        returns a scipy constraint object it builds; else None."""
+        if not (isinstance(call, ast.Call) and isinstance(call.func, ast.Attribute) and
+                astx.path(call.func.value) == 'self'):
+            return None
+        hf = self.repo.try_func(SCIPY, f'{DRV}.{call.func.attr}')
+        if hf is None:
+            return None
+        rets = [x for x in astx.walk_stmts(hf.node.body) if isinstance(x, ast.Return)]
+        if len(rets) != 1:
+            return None
+        memo = self.__dict__.setdefault('_builders', {})
+        if hf.qualname not in memo:
+            H = Fn(hf)
+            v = rets[0].value
+            if isinstance(v, ast.Name):
+                v, _ = H.value_of(H.at(rets[0]), v.id)
+            ok = isinstance(v, ast.Call) and astx.callee_attr(v) in ('NonlinearConstraint', 'LinearConstraint')
+            memo[hf.qualname] = (H, v, rets[0]) if ok else None
+        if memo[hf.qualname] is None:
+            return None
+        H, v, r = memo[hf.qualname]
+        return hf, v, r, H
+
+    def bind_builder(self, call, loop):
+        """Helper Fn with its parameters bound to the arguments of this call site."""
+        hf, cons_call, r, H = self.builder(call)
+        F = self.F
+        a = hf.node.args
+        hparams = [x.arg for x in a.posonlyargs + a.args][1:]
+        if any(isinstance(x, ast.Starred) for x in call.args) or any(k.arg is None for k in call.keywords):
+            raise AnalysisError(f'{hf.ident}: call with * / ** arguments')
+        pairs = list(zip(hparams, call.args)) + [(k.arg, k.value) for k in call.keywords if k.arg in hparams]
+        H.slots = F.slots
+        H.name_var = H.idx_var = None
+        H.param_exprs, H.scope_map = {}, {}
+        at = F.at(astx.stmt_of(call))
+        lv = loop.target.id if loop is not self.cons_loop else None
+        for pn, ae in pairs:
+            if isinstance(ae, ast.Name) and ae.id == F.name_var:
+                H.name_var = pn
+            elif isinstance(ae, ast.Name) and lv is not None and ae.id == lv:
+                H.idx_var = pn
+            else:
+                H.param_exprs[pn] = (F, ae, at)
+        if lv is not None and H.idx_var is not None:
+            H.scope_map['elem:' + lv] = 'elem:' + H.idx_var
+        rebound = [t.id for n in H.g.nodes if n.kind in ('stmt', 'iter', 'with') and n.ast is not None
+                   for t in astx.assigned_targets(n.ast)
+                   if isinstance(t, ast.Name) and t.id in (H.name_var, H.idx_var)]
+        if rebound:
+            raise AnalysisError(f'{hf.ident} rebinds {rebound}')
+        return H, cons_call, r
+
     def creations(self):
         """[(kind, var, stmt)] constraint objects created inside the constraint loop."""
         out = []
@@ -660,11 +737,22 @@ class Run:
                     and isinstance(s.targets[0].value, ast.Name) and astx.const_str(s.targets[0].slice) == 'fun':
                 fun_stores.add(s.targets[0].value.id)
         for s in astx.walk_stmts(self.cons_loop.body):
+            if isinstance(s, ast.Expr) and isinstance(s.value, ast.Call) and astx.callee_attr(s.value) == 'append' \
+                    and len(s.value.args) == 1 and isinstance(s.value.args[0], ast.Call):
+                inner = s.value.args[0]
+                kind = astx.callee_attr(inner) if astx.callee_attr(inner) in ('NonlinearConstraint', 'LinearConstraint') \
+                    else (astx.callee_attr(self.builder(inner)[1]) if self.builder(inner) is not None else None)
+                if kind:
+                    out.append((kind, None, s))     # built and appended in one statement
+                continue
             if not (isinstance(s, ast.Assign) and len(s.targets) == 1 and isinstance(s.targets[0], ast.Name)):
                 continue
             v = s.value
             if isinstance(v, ast.Call) and astx.callee_attr(v) in ('NonlinearConstraint', 'LinearConstraint'):
                 out.append((astx.callee_attr(v), s.targets[0].id, s))
+                continue
+            if self.builder(v) is not None:
+                out.append((astx.callee_attr(self.builder(v)[1]), s.targets[0].id, s))
                 continue
             lit = self._dict_literal(v)
             if lit is not None and (s.targets[0].id in fun_stores or 'fun' in lit):
@@ -729,12 +817,12 @@ def wrapped_method(F, e, at):
     return None, args
 
 
-def parse_args_list(F, e, at, loop):
+def parse_args_list(F, e, at, loop, loopvar=None):
     """[name, dbl, j] -> (dbl, name ok, index ok, list expr, shared); else raises.
 
     shared: the list object is created outside the element loop (or mutated by item stores), so all
     callbacks built in the loop hold the *same* list and see the arguments of the last iteration."""
-    loopvar = loop.target.id
+    loopvar = loop.target.id if loop is not None else loopvar
     shared = False
     if isinstance(e, ast.Name):
         nm = e.id
@@ -742,9 +830,10 @@ def parse_args_list(F, e, at, loop):
         if v is None:
             raise AnalysisError(f'cannot resolve args list {e.id}')
         e, at = v, d
-        if loop not in astx.ancestors(d.ast):
+        if loop is not None and loop not in astx.ancestors(d.ast):
             shared = True
-        for st_ in astx.walk_stmts(loop.body):
+        # (inside a builder helper the list is created per call; only in-place mutation can share it)
+        for st_ in astx.walk_stmts(loop.body if loop is not None else F.fn.node.body):
             for t in astx.assigned_targets(st_) if isinstance(st_, (ast.Assign, ast.AugAssign)) else []:
                 if isinstance(t, ast.Subscript) and isinstance(t.value, ast.Name) and t.value.id == nm:
                     shared = True
@@ -918,7 +1007,7 @@ class Callback:
         if ret in self.owner:
             return self.owner[ret].value_form(ret, st)
         F = self.F
-        e = ret.ast.value
+        e = self.ret_expr(ret, st) if ret.ast.value is not None else None
         if e is None:
             return None
         v = self.is_value(e, ret)
@@ -945,12 +1034,32 @@ class Callback:
                 return None
         return None
 
-    def grad_sign(self, ret):
-        """+1 / -1 for `return grad[row, :]` / `return -grad[row, :]`, with row checked; else None."""
-        if ret in self.owner:
-            return self.owner[ret].grad_sign(ret)
+    def ret_expr(self, ret, st):
+        """The expression a `return` hands back in state st: `a if c else b` is resolved by evaluating c."""
         F = self.F
         e = ret.ast.value
+        for _ in range(4):
+            if isinstance(e, ast.Name):
+                v, d = F.value_of(ret, e.id)
+                if isinstance(v, ast.IfExp):
+                    e = v
+                    continue
+            if not isinstance(e, ast.IfExp):
+                break
+            c = ev3(e.test, lambda a: atom(F, a, ret, st))
+            if c is None:
+                return None
+            e = e.body if c else e.orelse
+        return e
+
+    def grad_sign(self, ret, st=None):
+        """+1 / -1 for `return grad[row, :]` / `return -grad[row, :]`, with row checked; else None."""
+        if ret in self.owner:
+            return self.owner[ret].grad_sign(ret, st)
+        F = self.F
+        e = self.ret_expr(ret, st)
+        if e is None:
+            return None
         sign = 1
         if isinstance(e, ast.UnaryOp) and isinstance(e.op, ast.USub):
             sign, e = -1, e.operand
@@ -1009,27 +1118,42 @@ def emitted(R, out=None):
             ems.append(dict(style='old', var=var, stmt=st_, loop=loop, fun=fun, jac=jac, dbl=dbl,
                             args_ok=(okn, oki), args_shared=shared, args=argl, types=flds['type'], has_jac='jac' in flds))
         elif kind == 'NonlinearConstraint':
-            call = st_.value
+            call, eF, at, eloop, where = _cons_call(R, st_, loop)
             if loop is R.cons_loop:
                 raise AnalysisError('NonlinearConstraint is built outside an element loop')
             F.idx_var = loop.target.id
-            at = F.at(st_)
-            fun, a1 = wrapped_method(F, astx.arg(call, 0, 'fun'), at)
-            jac, a2 = wrapped_method(F, astx.kwarg(call, 'jac'), at) if astx.kwarg(call, 'jac') is not None \
+            idx = eF.idx_var
+            fun, a1 = wrapped_method(eF, astx.arg(call, 0, 'fun'), at)
+            jac, a2 = wrapped_method(eF, astx.kwarg(call, 'jac'), at) if astx.kwarg(call, 'jac') is not None \
                 else (None, None)
             if a1 is None:
                 raise AnalysisError('NonlinearConstraint fun is not signature_extender(..., args)')
-            dbl, okn, oki, argl, shared = parse_args_list(F, a1, at, loop)
+            dbl, okn, oki, argl, shared = parse_args_list(eF, a1, at, eloop, idx)
             if a2 is not None:
-                dbl2, okn2, oki2, _, shared2 = parse_args_list(F, a2, at, loop)
+                dbl2, okn2, oki2, _, shared2 = parse_args_list(eF, a2, at, eloop, idx)
                 shared = shared or shared2
                 if (dbl2, okn2, oki2) != (dbl, okn, oki):
                     raise AnalysisError('fun and jac of NonlinearConstraint get different args')
             ems.append(dict(style='new', var=var, stmt=st_, loop=loop, fun=fun, jac=jac, dbl=dbl,
-                            args_ok=(okn, oki), args_shared=shared, args=argl, call=call, has_jac=jac is not None))
+                            args_ok=(okn, oki), args_shared=shared, args=argl, call=call, has_jac=jac is not None,
+                            F=eF, at=at, idx=idx, where=where))
         else:
-            ems.append(dict(style='linear', var=var, stmt=st_, loop=loop, call=st_.value))
+            call, eF, at, eloop, where = _cons_call(R, st_, loop)
+            ems.append(dict(style='linear', var=var, stmt=st_, loop=loop, call=call, F=eF, at=at, idx=None,
+                            where=where))
     return ems
+
+
+def _cons_call(R, st_, loop):
+    """(constructor call, Fn to evaluate it in, node, loop or None, Func for reports) of a creation statement."""
+    v = st_.value
+    if isinstance(v, ast.Call) and astx.callee_attr(v) == 'append' and len(v.args) == 1:
+        v = v.args[0]
+    if astx.callee_attr(v) in ('NonlinearConstraint', 'LinearConstraint'):
+        R.F.idx_var = loop.target.id if loop is not R.cons_loop else None
+        return v, R.F, R.F.at(st_), loop, R.fn
+    H, call, r = R.bind_builder(v, loop)
+    return call, H, H.at(r), None, H.fn
 
 
 def presence(R, em, st):
@@ -1134,6 +1258,15 @@ def emit(repo, out):
         loop = R.loop_of(st_)
         hdr = g.nodes_of(loop)[0]
         c = F.at(st_)
+        if var is None:
+            recv = astx.path(astx.receiver(st_.value))
+            if recv == R.list_name:
+                out.ok(R.fn, st_, f'{kind} is built and appended to `{R.list_name}` in one statement of '
+                       f'`for {astx.src(loop.target)}`')
+            else:
+                out.bad(R.fn, st_, f'the {kind} is appended to `{recv}`, not to `{R.list_name}`, which is what scipy gets',
+                        key=f'not-appended-{kind}-direct')
+            continue
         good, other = R.appends(var)
         # appends that see this creation
         mine = [n for n in good if c in F.rd.defs(n, var)]
@@ -1356,7 +1489,7 @@ def sign(repo, out):
                 else:
                     fs.add(vf[1])
             for r in jr:
-                gs = cj.grad_sign(r)
+                gs = cj.grad_sign(r, s2)
                 if gs is None:
                     unsure = (cj.fn_of(r), r.ast, 'unrecognised gradient form (expected [-]grad[self._con_idx[name] + idx, :])')
                 elif not gs[1]:
@@ -1402,20 +1535,19 @@ def _clamp(e):
 def newbounds(repo, out):
     """New style: lb/ub are the lower/upper (equality: equals) bound of element j (whole vector for LinearConstraint), correctly clamped."""
     R = run_of(repo)
-    F = R.F
     for em in emitted(R):
         if em['style'] == 'old':
             continue
         call = em['call']
         per_elem = em['style'] == 'new'
-        F.idx_var = em['loop'].target.id if per_elem else None
-        at = F.at(em['stmt'])
+        F, at, where = em['F'], em['at'], em['where']     # the run() body or a builder helper bound to its call site
+        F.idx_var = em['idx'] if per_elem else None
         if per_elem:
             okn, oki = em['args_ok']
             if em['args_shared']:
-                out.bad(R.fn, em['args'], "the argument list is created outside the element loop / mutated in place, so every callback built in the loop holds the same list object and evaluates the element of the *last* iteration: all other elements are unconstrained", key='args-shared-new')
+                out.bad(where, em['args'], "the argument list is created outside the element loop / mutated in place, so every callback built in the loop holds the same list object and evaluates the element of the *last* iteration: all other elements are unconstrained", key='args-shared-new')
             elif not okn or not oki or em['dbl'] is not False:
-                out.bad(R.fn, em['args'], f"args {astx.src(em['args'])} must be [name, False, {F.idx_var}]",
+                out.bad(where, em['args'], f"args {astx.src(em['args'])} must be [name, False, {F.idx_var}]",
                         key='args-new')
         for kw, want in (('lb', 'lower'), ('ub', 'upper')):
             e = astx.kwarg(call, kw)
@@ -1423,7 +1555,7 @@ def newbounds(repo, out):
                 pos = {'lb': 1, 'ub': 2}[kw]
                 e = call.args[pos] if len(call.args) > pos else None
             if e is None:
-                out.bad(R.fn, call, f'{kw} is not passed: the {want} bound is dropped', key=f'{kw}-missing')
+                out.bad(where, call, f'{kw} is not passed: the {want} bound is dropped', key=f'{kw}-missing')
                 continue
             e0 = e
             eat = at
@@ -1460,18 +1592,18 @@ def newbounds(repo, out):
                 else:
                     verdicts.append(('ok', st, None))
             if problem:
-                out.bad(R.fn, e0, problem[0], key=problem[1] + '-' + em['style'])
+                out.bad(where, e0, problem[0], key=problem[1] + '-' + em['style'])
             elif any(v[0] == 'bad' for v in verdicts):
                 v = [v for v in verdicts if v[0] == 'bad'][0]
                 wk = 'equals' if v[1]['E'] else want
-                out.bad(R.fn, e0, f"{kw} of {astx.callee_attr(call)} is the {v[2][0]} bound ({v[2][1]}) in state "
+                out.bad(where, e0, f"{kw} of {astx.callee_attr(call)} is the {v[2][0]} bound ({v[2][1]}) in state "
                         f"{fmt_state(v[1])}; it must be the {wk} bound "
                         f"({'element ' + str(F.idx_var) if per_elem else 'all elements'})", key=f'{kw}-role-{em["style"]}')
             elif any(v[0] == 'unsure' for v in verdicts):
                 v = [v for v in verdicts if v[0] == 'unsure'][0]
-                out.unsure(R.fn, e0, f'cannot resolve {kw} in state {fmt_state(v[1])}: {sorted(v[2])}')
+                out.unsure(where, e0, f'cannot resolve {kw} in state {fmt_state(v[1])}: {sorted(v[2])}')
             else:
-                out.ok(R.fn, e0, f"{kw} of {astx.callee_attr(call)} = {want}/equals bound, "
+                out.ok(where, e0, f"{kw} of {astx.callee_attr(call)} = {want}/equals bound, "
                        f"{'element ' + str(F.idx_var) if per_elem else 'whole vector'}"
                        + (', clamped' if cl else ''))
 
@@ -1496,14 +1628,13 @@ def _mentions_value(F, e, at, depth=0):
 def linear(repo, out):
     """Bounds handed to LinearConstraint (lb <= A x <= ub) account for the constant term of the affine constraint."""
     R = run_of(repo)
-    F = R.F
     found = False
     for em in emitted(R):
         if em['style'] != 'linear':
             continue
         found = True
         call = em['call']
-        at = F.at(em['stmt'])
+        F, at = em['F'], em['at']
         F.idx_var = None
         for kw in ('lb', 'ub'):
             e = astx.kwarg(call, kw)
@@ -1840,8 +1971,8 @@ def status(repo, out):
             out.ok(fn, ok_rr[0].ast, '`if self._exc_info is not None: self._reraise()` dominates every status assignment')
     # return value
     rets = [s for s in astx.walk_stmts(fn.node.body) if isinstance(s, ast.Return)]
-    if len(rets) == 1 and astx.path(rets[0].value) == 'self.fail':
-        out.ok(fn, rets[0], 'run() returns self.fail')
+    if rets and all(astx.path(r.value) == 'self.fail' for r in rets):
+        out.ok(fn, rets[0], f'run() returns self.fail ({len(rets)} return statement(s))')
     elif any(isinstance(r.value, ast.Constant) for r in rets):
         out.bad(fn, rets[0], 'run() returns a constant instead of self.fail', key='return-fail')
     else:
@@ -2013,6 +2144,63 @@ _INV = {'+': '-', '-': '+', '*': '/', '/': '*'}
 _AOP = {ast.Add: '+', ast.Sub: '-', ast.Mult: '*', ast.Div: '/'}
 
 
+def _meta_role(repo, F, e, at, depth=0):
+    """'scaler' / 'adder' for an expression read from meta['total_scaler'] / ['total_adder'], through locals,
+    tuple assignments and private Autoscaler helpers returning such values (or a tuple of them)."""
+    if depth > 5 or e is None:
+        return None
+    if isinstance(e, ast.Name):
+        ds = F.describe_defs(at, e.id)
+        if len(ds) != 1:
+            return None
+        k, p, d = ds[0]
+        if k == 'expr':
+            return _meta_role(repo, F, p, d, depth + 1)
+        if k == 'slot':
+            i, n, val = p
+            if isinstance(val, (ast.Tuple, ast.List)) and len(val.elts) == n:
+                return _meta_role(repo, F, val.elts[i], d, depth + 1)
+            r = _helper_return(repo, val)
+            if r is not None:
+                H, rv, rn = r
+                if isinstance(rv, ast.Name):
+                    v2, d2 = H.value_of(rn, rv.id)
+                    rv, rn = (v2, d2) if v2 is not None else (rv, rn)
+                if isinstance(rv, (ast.Tuple, ast.List)) and len(rv.elts) == n:
+                    return _meta_role(repo, H, rv.elts[i], rn, depth + 1)
+        return None
+    if isinstance(e, ast.Subscript):
+        k = astx.const_str(e.slice)
+        if k in ('total_scaler',):
+            return 'scaler'
+        if k in ('total_adder',):
+            return 'adder'
+        return None
+    if isinstance(e, ast.Call):
+        r = _helper_return(repo, e)
+        if r is not None:
+            H, rv, rn = r
+            return _meta_role(repo, H, rv, rn, depth + 1)
+    return None
+
+
+def _helper_return(repo, call):
+    """(Fn, returned expr, return node) of a single-return private method `self.m(...)` of Autoscaler."""
+    if not (isinstance(call, ast.Call) and isinstance(call.func, ast.Attribute) and astx.path(call.func.value) == 'self'):
+        return None
+    hf = repo.try_func(AUTO, f'Autoscaler.{call.func.attr}')
+    if hf is None:
+        return None
+    rets = [x for x in astx.walk_stmts(hf.node.body) if isinstance(x, ast.Return)]
+    if len(rets) != 1 or rets[0].value is None:
+        return None
+    memo = repo.__dict__.setdefault('_c21_auto_helpers', {})
+    if hf.qualname not in memo:
+        memo[hf.qualname] = Fn(hf)
+    H = memo[hf.qualname]
+    return H, rets[0].value, H.at(rets[0])
+
+
 def _vec_ops(repo, qual):
     """Per (adder given, scaler given): the sequence of in-place operations one loop iteration of an
     Autoscaler._apply_vec_* method applies to vec[name]; plus the value _driver_scaling is left at."""
@@ -2030,18 +2218,7 @@ def _vec_ops(repo, qual):
 
     def role_of(e, at):
         """'scaler' / 'adder' for a local read from meta['total_scaler'] / ['total_adder']."""
-        if isinstance(e, ast.Name):
-            v, d = F.value_of(at, e.id)
-            if v is None:
-                return None
-            e = v
-        if isinstance(e, ast.Subscript):
-            k = astx.const_str(e.slice)
-            if k in ('total_scaler', 'scaler'):
-                return 'scaler'
-            if k in ('total_adder', 'adder'):
-                return 'adder'
-        return None
+        return _meta_role(repo, F, e, at)
 
     table = {}
     for has_a in (False, True):
@@ -2256,8 +2433,137 @@ def _idx_new(step='nl_i + size'):
             "                    lin_i = size + lin_i\n")
 
 
+_NL_BODY_OLD = ("                            args = [name, False, j]\n"
+                "                            lb_j = np.maximum(lb[j], -INF_BOUND)\n"
+                "                            ub_j = np.minimum(ub[j], INF_BOUND)\n"
+                "                            con = NonlinearConstraint(\n"
+                "                                fun=signature_extender(\n"
+                "                                    WeakMethodWrapper(self, '_con_val_func'), args),\n"
+                "                                lb=lb_j, ub=ub_j,\n"
+                "                                jac=signature_extender(\n"
+                "                                    WeakMethodWrapper(self, '_congradfunc'), args)\n"
+                "                            )\n"
+                "                            constraints.append(con)\n")
+_LBUB_OLD = ("                    if equals is not None:\n"
+             "                        lb = ub = equals\n"
+             "                    else:\n"
+             "                        lb = lower\n"
+             "                        ub = upper\n")
+
+
+def _builder_shape(call_args='name, j, lb[j], ub[j]', lb_clamp='np.maximum(lb_j, -INF_BOUND)',
+                   lbub='(lower, upper) if equals is None else (equals, equals)', target='constraints'):
+    """New-style element constraints built by an extracted helper, lb/ub picked by a tuple conditional (benign C21_b2_1)."""
+    body = (f"                            {target}.append(\n"
+            f"                                self._new_style_nl_constraint({call_args}))\n")
+    helper = ("    def _new_style_nl_constraint(self, name, j, lb_j, ub_j):\n"
+              "        from scipy.optimize import NonlinearConstraint\n"
+              "        args = [name, False, j]\n"
+              f"        lb_j = {lb_clamp}\n"
+              "        ub_j = np.minimum(ub_j, INF_BOUND)\n"
+              "        return NonlinearConstraint(\n"
+              "            fun=signature_extender(WeakMethodWrapper(self, '_con_val_func'), args),\n"
+              "            lb=lb_j, ub=ub_j,\n"
+              "            jac=signature_extender(WeakMethodWrapper(self, '_congradfunc'), args)\n"
+              "        )\n"
+              "\n"
+              "    def _objfunc(self, x_new):\n")
+    return dict(new=body, also=[(_S, "    def _objfunc(self, x_new):\n", helper),
+                                (_S, _LBUB_OLD, f"                    lb, ub = {lbub}\n")])
+
+
+_STATUS_OLD = ("        if hasattr(result, 'success'):\n"
+               "            self.fail = not result.success\n"
+               "            if self.fail:\n"
+               "                if prob.comm.rank == 0:\n"
+               "                    print('Optimization FAILED.')\n"
+               "                    print(result.message)\n"
+               "                    print('-' * 35)\n"
+               "\n"
+               "            elif self.options['disp']:\n"
+               "                if prob.comm.rank == 0:\n"
+               "                    print('Optimization Complete')\n"
+               "                    print('-' * 35)\n"
+               "        else:\n"
+               "            self.fail = True  # It is not known, so the worst option is assumed\n"
+               "            if prob.comm.rank == 0:\n"
+               "                print('Optimization Complete (success not known)')\n"
+               "                print(result.message)\n"
+               "                print('-' * 35)\n")
+
+
+def _status_early(unknown_ret='self.fail', flag='not result.success'):
+    return ("        if not hasattr(result, 'success'):\n"
+            "            self.fail = True\n"
+            "            if prob.comm.rank == 0:\n"
+            "                print('Optimization Complete (success not known)')\n"
+            f"            return {unknown_ret}\n"
+            "\n"
+            f"        self.fail = {flag}\n"
+            "        if self.fail and prob.comm.rank == 0:\n"
+            "            print('Optimization FAILED.')\n")
+
+
+_CONGRAD_TAIL_OLD = ("        if isinstance(lower, np.ndarray):\n"
+                     "            lower = lower[idx]\n"
+                     "\n"
+                     "        if dbl or (lower <= -INF_BOUND):\n"
+                     "            return -grad[grad_idx, :]\n"
+                     "        else:\n"
+                     "            return grad[grad_idx, :]\n")
+
+
+def _congrad_tail(expr='-grad[grad_idx, :] if negate else grad[grad_idx, :]'):
+    return ("        lower = lower[idx] if isinstance(lower, np.ndarray) else lower\n"
+            "\n"
+            "        negate = dbl or (lower <= -INF_BOUND)\n"
+            f"        return {expr}\n")
+
+
+_UNSCALE_LOOKUP = ("            scaler = self._var_meta[vec.voi_type][name]['total_scaler']\n"
+                   "            adder = self._var_meta[vec.voi_type][name]['total_adder']\n")
+
+
+def _lookup_helper(ret="meta['total_scaler'], meta['total_adder']"):
+    """scaler/adder lookups extracted into a private helper returning a tuple (benign C20_b2_2 / C21_b2_4)."""
+    helper = ("    def _total_scaling(self, voi_type, name):\n"
+              "        meta = self._var_meta[voi_type][name]\n"
+              f"        return {ret}\n"
+              "\n"
+              "    def apply_design_var_unscaling(self, vec: 'OptimizerVector'):\n")
+    call = "            scaler, adder = self._total_scaling(vec.voi_type, name)\n"
+    return dict(new=call, nth=0, also=[(AUTO, _UNSCALE_LOOKUP, call),
+                                        (AUTO, "    def apply_design_var_unscaling(self, vec: 'OptimizerVector'):\n", helper)])
+
+
 selftest(
     'C21',
+    # ---- second robustness round: builder helpers, tuple conditionals, early returns, conditional returns
+    Twin('twin-builder-helper-tuple-conditional', _S, _NL_BODY_OLD, **_builder_shape()),
+    Mutant('newbounds-builder-clamp-min', _S, _NL_BODY_OLD, expect='C21.newbounds',
+           **_builder_shape(lb_clamp='np.minimum(lb_j, -INF_BOUND)')),
+    Mutant('newbounds-builder-args-swapped', _S, _NL_BODY_OLD, expect='C21.newbounds',
+           **_builder_shape(call_args='name, j, ub[j], lb[j]')),
+    Mutant('newbounds-builder-element-0', _S, _NL_BODY_OLD, expect='C21.newbounds',
+           **_builder_shape(call_args='name, j, lb[0], ub[j]')),
+    Mutant('newbounds-tuple-conditional-swapped', _S, _NL_BODY_OLD, expect='C21.newbounds',
+           **_builder_shape(lbub='(upper, lower) if equals is None else (equals, equals)')),
+    Mutant('newbounds-tuple-conditional-eq-dropped', _S, _NL_BODY_OLD, expect='C21.newbounds',
+           **_builder_shape(lbub='(lower, upper) if equals is not None else (equals, equals)')),
+    Mutant('emit-builder-appended-elsewhere', _S, _NL_BODY_OLD, expect='C21.emit', **_builder_shape(target='lincons')),
+    Mutant('sign-builder-still-checked', _S, _NL_BODY_OLD, expect='C21.sign',
+           **{**_builder_shape(), 'also': _builder_shape()['also'] + [
+               (_S, "        if meta['equals'] is not None:\n            return grad[grad_idx, :]",
+                "        if meta['equals'] is not None:\n            return -grad[grad_idx, :]")]}),
+    Twin('twin-status-early-return', _S, _STATUS_OLD, _status_early()),
+    Mutant('status-early-return-claims-success', _S, _STATUS_OLD, _status_early(unknown_ret='False'), 'C21.status'),
+    Mutant('status-early-return-inverted', _S, _STATUS_OLD, _status_early(flag='result.success'), 'C21.status'),
+    Twin('twin-congrad-conditional-return', _S, _CONGRAD_TAIL_OLD, _congrad_tail()),
+    Mutant('sign-conditional-return-swapped', _S, _CONGRAD_TAIL_OLD,
+           _congrad_tail('grad[grad_idx, :] if negate else -grad[grad_idx, :]'), 'C21.sign'),
+    Twin('twin-scaler-adder-lookup-helper', AUTO, _UNSCALE_LOOKUP, **_lookup_helper()),
+    Mutant('mirror-lookup-helper-swapped', AUTO, _UNSCALE_LOOKUP, expect='C21.mirror',
+           **_lookup_helper("meta['total_adder'], meta['total_scaler']")),
     # ---- refactored shapes (benign C21_2 / C21_3): accepted when right, still reported when wrong
     Twin('twin-confunc-helper-tuple-index', _S, _CONFUNC_OLD, _confunc_helper()),
     Mutant('cover-helper-upper-sign', _S, _CONFUNC_OLD, _confunc_helper(upper_form='con_cache[name][idx] - upper'), 'C21.cover'),
